@@ -246,8 +246,11 @@ def gen_targeted(W, rng, kind=None):
         # diagonal or block operand into an accumulated one (sign / transformation bookkeeping across several merges) are not
         # reachable through the binary operators, which simplify after every step
         n = rng.choice([3, 3, 4, 5, 6])
+        focus = rng.random() < 0.5        # half of the cases: (almost) only operands of ONE mergeable class
         if rng.random() < 0.5:
             pool = [lambda: diag(), lambda: diag(), lambda: diag(same_dt=False), lambda: scal(), lambda: other()]
+            if focus:
+                pool = rng.choice([[lambda: diag()] * 5 + [lambda: other()], [lambda: scal()] * 4 + [lambda: diag(), lambda: other()]])
             args = [rng.choice(pool)() for _ in range(n)]
             neg = [rng.random() < 0.45 for _ in range(n)]
             if rng.random() < 0.5:
@@ -255,6 +258,9 @@ def gen_targeted(W, rng, kind=None):
             e = dict(op="sumN", args=args, neg=neg, d=d, t=d)
         else:
             pool = [lambda: diag(), lambda: diag(), lambda: scal(), lambda: scal(cplx=True), lambda: other()]
+            if focus:
+                pool = rng.choice([[lambda: diag()] * 5 + [lambda: other()],
+                                   [lambda: scal(), lambda: scal(cplx=True), lambda: scal(cplx=False), lambda: diag(), lambda: other()]])
             e = dict(op="chainN", args=[rng.choice(pool)() for _ in range(n)], d=d, t=d)
         r = rng.random()
         if r < 0.15:
@@ -625,6 +631,9 @@ def run(ctx):
         if i % 10 == 7:
             # two block-diagonal operators with every pattern of missing keys (same key missing in both: 2·id, 0, id)
             cases.append(dict(script=gen_targeted(W, ctx.rng, kind="block"), valid=True, targeted=True))
+        elif i % 10 == 3:
+            # SumOperator.make / ChainOperator.make with 3..6 operands (rules that fire for the 3rd+ operand only)
+            cases.append(dict(script=gen_targeted(W, ctx.rng, kind="nary"), valid=True, targeted=True))
         elif i % 5 in (1, 3):
             cases.append(dict(script=gen_targeted(W, ctx.rng), valid=True, targeted=True))
         else:
